@@ -1,4 +1,5 @@
 import Toodee.Spec.IterAbs
+import Toodee.Proofs.IterLemmas
 /-
   C08 — Row iterators behave as an ideal double-ended exact-size sequence.
 
@@ -15,62 +16,69 @@ variable {α : Type}
 theorem C08_next (it : Rows) (k n : Nat) (h : it.WF k n) :
     ∃ it', it.next = .ok ((Seq.next (it.abs k)).1, it') ∧ it'.WF (k - 1) n ∧
       it'.abs (k - 1) = (Seq.next (it.abs k)).2 := by
-  sorry
+  obtain ⟨it', h1, h2, _, _, h5⟩ := Rows.next_spec h
+  exact ⟨it', h1, h2, h5⟩
 
 theorem C08_next_back (m : Mode) (it : Rows) (k n : Nat) (h : it.WF k n) :
     ∃ it', it.nextBack m = .ok ((Seq.nextBack (it.abs k)).1, it') ∧ it'.WF (k - 1) n ∧
       it'.abs (k - 1) = (Seq.nextBack (it.abs k)).2 := by
-  sorry
+  obtain ⟨it', h1, h2, _, _, h5⟩ := Rows.nextBack_spec m h
+  exact ⟨it', h1, h2, h5⟩
 
 theorem C08_nth (m : Mode) (it : Rows) (k n : Nat) (h : it.WF k n) (j : Nat) (hj : j < WORD) :
     ∃ it', it.nth m j = .ok ((Seq.nth (it.abs k) j).1, it') ∧ it'.WF (k - (j + 1)) n ∧
       it'.abs (k - (j + 1)) = (Seq.nth (it.abs k) j).2 := by
-  sorry
+  obtain ⟨it', h1, h2, _, _, h5⟩ := Rows.nth_spec m h j
+  exact ⟨it', h1, h2, h5⟩
 
 theorem C08_nth_back (m : Mode) (it : Rows) (k n : Nat) (h : it.WF k n) (j : Nat) (hj : j < WORD) :
     ∃ it', it.nthBack m j = .ok ((Seq.nthBack (it.abs k) j).1, it') ∧ it'.WF (k - (j + 1)) n ∧
       it'.abs (k - (j + 1)) = (Seq.nthBack (it.abs k) j).2 := by
-  sorry
+  obtain ⟨it', h1, h2, _, _, h5⟩ := Rows.nthBack_spec m h j
+  exact ⟨it', h1, h2, h5⟩
 
 /-- `len()`, `size_hint()`, `count()` -/
 theorem C08_len (m : Mode) (it : Rows) (k n : Nat) (h : it.WF k n) : it.sizeHint m = .ok k := by
-  sorry
+  exact Rows.sizeHint_spec m h
 
 theorem C08_last (m : Mode) (it : Rows) (k n : Nat) (h : it.WF k n) :
     it.last m = .ok (Seq.last (it.abs k)) := by
-  sorry
+  exact Rows.last_spec m h
 
 /-- `fold` visits exactly the remaining rows in order; `rfold` in reverse order -/
 theorem C08_fold (it : Rows) (k n : Nat) (h : it.WF k n) (fuel : Nat) (hf : k < fuel) :
     it.collect fuel = .ok (it.abs k) := by
-  sorry
+  exact Rows.collect_spec h fuel hf
 
 theorem C08_rfold (m : Mode) (it : Rows) (k n : Nat) (h : it.WF k n) (fuel : Nat) (hf : k < fuel) :
     it.collectBack m fuel = .ok (it.abs k).reverse := by
-  sorry
+  exact Rows.collectBack_spec m h fuel hf
 
 /-- any interleaving of `next`, `next_back`, `nth`, `nth_back`, `len`: the whole trace equals the ideal sequence's -/
 theorem C08_word (m : Mode) (it : Rows) (k n : Nat) (h : it.WF k n) (w : List Seq.Op)
     (hw : ∀ o ∈ w, o.small) :
     ∃ it' k', it.run m w = .ok ((Seq.run (it.abs k) w).1, it') ∧ it'.WF k' n ∧
       it'.abs k' = (Seq.run (it.abs k) w).2 := by
-  sorry
+  obtain ⟨it', k', h1, h2, _, _, h5⟩ := Rows.run_spec m h w
+  exact ⟨it', k', h1, h2, h5⟩
 
 /-- `rows()` / `rows_mut()` of an owned array -/
 theorem C08_rows_owned (t : TD α) (h : t.Inv) :
     t.rows.WF t.numRows t.data.length ∧
     t.rows.abs t.numRows = (List.range t.numRows).map fun r => ⟨t.pos 0 r, t.numCols⟩ := by
-  sorry
+  obtain ⟨h1, _, _, h4⟩ := TD.rows_WF t h
+  exact ⟨h1, h4⟩
 
 /-- `rows()` / `rows_mut()` of a view or mutable view -/
 theorem C08_rows_view (m : Mode) (v : VW) (n : Nat) (h : v.Inv n) :
     ∃ it, v.rows m = .ok it ∧ it.WF v.numRows n ∧
       it.abs v.numRows = (List.range v.numRows).map fun r => ⟨v.pos 0 r, v.numCols⟩ := by
-  sorry
+  obtain ⟨it, h1, h2, _, _, _, h6⟩ := VW.rows_WF m v n h
+  exact ⟨it, h1, h2, h6⟩
 
 /-- the rows handed out are pairwise disjoint windows inside the buffer -/
 theorem C08_rows_disjoint (it : Rows) (k n : Nat) (h : it.WF k n) :
     (it.abs k).Pairwise Win.Disjoint ∧ ∀ w ∈ it.abs k, w.off + w.len ≤ n ∧ w.len = it.cols := by
-  sorry
+  exact ⟨Rows.abs_pairwise_disjoint it k, Rows.abs_inside h⟩
 
 end Toodee
